@@ -77,6 +77,16 @@ CHECKS = {
             "topology (ids, numbering, hidden ends, cyclic threshold, single-residue chains, mixes).",
             "Trusted: generator ground truth for chain ends; the formal-charge table in vf/ref/states.py; residues "
             "with an unassigned atom are outside the claim (counted in the evidence).", "DESIGN.md#c02"),
+    "C12": ("fault_enumeration", "fault injection (natural faults, stage-function faults, sys.monitoring LINE failpoints) with an audit-hook + before/after monitor on the output path; success-side cell enumeration",
+            "Success side: every (force field x standard residue/nucleotide x position) cell is run in a minimal "
+            "structure of its own, so a rejection is attributed by construction. Failure side: ~28 natural faults, "
+            "every stage function between argument checking and print_pqr made to raise six exception types on its "
+            "k-th call, and random statement-level failpoints; after every failed run the output path must be "
+            "untouched (absent stays absent, sentinel keeps bytes+mtime) and no write-open of it may have been "
+            "observed before print_pqr; every normal return must leave a complete file.",
+            "Trusted: sys.addaudithook sees every open(); the stage boundary is the entry of main.print_pqr; faults "
+            "during the final write are not injected (outside the property's stage list). Known findings: three "
+            "force-field data gaps on the success side.", "DESIGN.md#c12"),
 }
 
 NOT_APPLICABLE = {}
